@@ -235,6 +235,47 @@ func runC07(c *Ctx) {
 		}
 		c.check(good, dec, "resetDecode first", dec.Pos(), "the previous frame is consumed before anything is decoded", "Decode does not call resetDecode before preparing bytes: the previous frame is decoded again (or the next frame starts at the wrong offset)")
 
+		// every stage: the bytes of the read area are sliced up to k only after PrepareRead(k) succeeded, and a failed
+		// PrepareRead ends the call with its error (a stage whose test is inverted hands out (nil, nil) when the bytes
+		// are there and slices past the received bytes when they are not)
+		{
+			nStage := 0
+			eachInstrDeep(dec, func(in, site ssa.Instruction, tr func(ssa.Value) ssa.Value) {
+				sl, ok := in.(*ssa.Slice)
+				if !ok || sl.High == nil {
+					return
+				}
+				dc, ok := strip(sl.X).(*ssa.Call)
+				if !ok || !isCallToFn(dc, data) {
+					return
+				}
+				nStage++
+				okStage := false
+				for _, g := range []*ssa.Function{in.Parent(), dec} {
+					for _, pc := range callsToFn(g, prepareRead) {
+						if stripConv(pc.Common().Args[1]) == stripConv(sl.High) || stripConv(pc.Common().Args[1]) == stripConv(tr(sl.High)) {
+							if guardedNil(in.Block(), pc.(ssa.Value)) || (in.Parent() != dec && guardedNil(site.Block(), pc.(ssa.Value))) {
+								okStage = true
+							}
+						}
+					}
+				}
+				c.check(okStage, dec, "stage available", in.Pos(), "Data()[:k] only after PrepareRead(k) returned nil", "the read area is sliced up to a length that was not prepared successfully on this path (no PrepareRead of that amount tested == nil): the decoder reads past the received bytes (panic) when they are missing and reports no frame when they are there")
+			})
+			if nStage == 0 {
+				c.bad(dec, "stage available", dec.Pos(), "Decode never slices the read area (anchor moved)")
+			}
+			for _, pc := range callsToFn(dec, prepareRead) {
+				for _, r := range returnsOf(dec) {
+					for _, l := range guardsOf(r.Block()) {
+						if x, eq, ok := l.nilTest(); ok && !eq && strip(x) == pc.(ssa.Value) {
+							c.check(strip(r.Results[1]) == pc.(ssa.Value), dec, "stage error", exitPos(r), "a failed PrepareRead is returned as it is", "a stage whose PrepareRead failed does not return that error: the caller sees success (or another error) for bytes that are not there")
+						}
+					}
+				}
+			}
+		}
+
 		// success return
 		for _, r := range returnsOf(dec) {
 			if !isNil(r.Results[1]) {
